@@ -35,3 +35,5 @@ ser_hash!(Ed25519KeyHash, ScriptHash);
 pub type SubCoin = UnitInterval;
 ser_opaque!(PlutusData);
 pub type SlotBigNum = BigNum;
+ser_opaque!(Credentials);
+pub type DeltaCoin = Int;
